@@ -27,6 +27,7 @@ type Env struct {
 	depth  int
 	lets   map[string]*Clause
 	preferCells bool // loop invariants / call-site clauses: a parameter name means the CURRENT value of its cell
+	calleeCalls map[string]string // evaluating a CALLEE's postcondition at a call site: its call counters are unknown to the caller (fresh values)
 }
 
 type evalErr struct{ msg string }
@@ -453,7 +454,7 @@ func (env *Env) fieldByIndex(v Val, idx int) Val {
 			return term(e.mkSub(env.st, stt, idx, v.T), SRef, ptrMarker{types.NewPointer(ft)})
 		}
 		h, fs := e.d.FieldHeap(stt, idx)
-		return env.typedFrom(term(sel(env.heapGet(h), v.T), fs, ft), h)
+		return env.typedFrom(term(sel(env.heapGet(h), v.T), fs, ft), h, v.T)
 	case *types.Struct:
 		si := e.d.StructOf(v.Typ)
 		ft := u.Field(idx).Type()
@@ -474,15 +475,16 @@ type ptrMarker struct{ *types.Pointer }
 // (slice header well-formedness, byte-string facts, unsigned ranges). Skipped under binders.
 // typedFrom: like typed, and for references read from heap array h also the fact that they were allocated
 // before that heap version was created (needed to separate them from objects allocated later).
-func (env *Env) typedFrom(v Val, h string) Val {
+func (env *Env) typedFrom(v Val, h string, base string) Val {
 	v = env.typed(v)
 	if v.K != KTerm || env.st == nil || hasBound(v.T) || v.S != SRef {
 		return v
 	}
-	bound := env.st.heapBound(h)
+	bound := env.st.loadBound(h, base)
 	if env.inOld && env.old != nil {
 		if _, changed := env.old.heap[h]; !changed {
-			bound = "now0"
+			// (only for base objects that existed at entry; a younger base can hold references up to the old state's time)
+			bound = fmt.Sprintf("(ite (< (stamp %s) now0) now0 %s)", base, env.old.alive)
 		} else {
 			bound = env.old.alive
 		}
@@ -906,6 +908,19 @@ func (env *Env) call(x *ast.CallExpr) Val {
 		id, ok := x.Args[0].(*ast.Ident)
 		if !ok {
 			env.fail("calls(NAME)")
+		}
+		if env.calleeCalls != nil {
+			// the counters of the callee's own activation: nothing is known about them here
+			k := id.Name
+			if env.inOld {
+				k = "old:" + k
+			}
+			if t, ok := env.calleeCalls[k]; ok {
+				return term(t, SInt, types.Typ[types.Int])
+			}
+			t := e.freshConst(env.st, "cc_"+id.Name, SInt)
+			env.calleeCalls[k] = t
+			return term(t, SInt, types.Typ[types.Int])
 		}
 		m := env.st.calls
 		if env.inOld && env.old != nil {
